@@ -160,7 +160,10 @@ let run_mutex (threads : string list list) (res : string) (evs : raw list) : str
            let per = Array.make nthr [] in
            List.iter (fun (t, r) -> let i = int_of_nat t in if i < nthr then per.(i) <- res_s r :: per.(i)) (results sf);
            let mres = String.concat "/" (Array.to_list (Array.map (fun l -> if l = [] then "-" else String.concat "," (List.rev l)) per)) in
-           if mres = res then Printf.sprintf "ok %d res=%s" n res
+           if Sys.getenv_opt "K3LOCK_EMIT" <> None then
+             "sched [" ^ String.concat "; " (List.map (fun ((t, c), _) ->
+                 Printf.sprintf "(%d, %s)" (int_of_nat t) (match c with ChGo -> "ChGo" | ChAgain -> "ChAgain")) (List.rev !tr)) ^ "]"
+           else if mres = res then Printf.sprintf "ok %d res=%s" n res
            else Printf.sprintf "reject results: model res=%s, implementation res=%s" mres res
        | Inl None -> "reject: replay returned no state"
        | Inr k -> Printf.sprintf "reject at %d: extracted replay refused the step" (n - 1 - int_of_nat k))
